@@ -167,6 +167,9 @@ pub async fn scenario(line: &str) -> String {
     "reprace" => reprace(&p).await,
     "reqstale" => reqstale(&p).await,
     "stream" => stream(&p).await,
+    "fsmscript" => fsmscript(&p).await,
+    "partialread" => partialread(&p).await,
+    "bigmulti" => bigmulti(&p).await,
     "faultlocal" => faultlocal(&p).await,
     _ => "bad-op".to_string(),
   }
@@ -943,7 +946,25 @@ async fn stream_inner(opts: HashMap<String, String>, scfg: HashMap<String, Strin
   // ROUTER sender: address the (only) peer by the identity the receiver was given
   let dest: Option<Vec<u8>> = if sty == "ROUTER" { rcfg.get("id").map(|v| parse_bytes(v)) } else { None };
   let total = msgs.len();
-  let expected: Vec<String> = msgs.iter().map(|m| show_msg(m)).collect();
+  // what the receiver must see: the frames as given, MORE on all but the last
+  let expected: Vec<String> = msgs
+    .iter()
+    .map(|m| {
+      let n = m.len();
+      let norm: Vec<Msg> = m
+        .iter()
+        .enumerate()
+        .map(|(i, f)| {
+          let mut c = Msg::from_vec(f.data().unwrap_or(&[]).to_vec());
+          if i + 1 < n {
+            c.set_flags(rzmq::MsgFlags::MORE);
+          }
+          c
+        })
+        .collect();
+      show_msg(&norm)
+    })
+    .collect();
   let snd2 = snd.clone();
   let sender = tokio::spawn(async move {
     let mut accepted = Vec::new();
@@ -967,11 +988,39 @@ async fn stream_inner(opts: HashMap<String, String>, scfg: HashMap<String, Strin
     (accepted, None)
   });
   let strip = rty == "ROUTER";
+  let style = opts.get("style").cloned().unwrap_or_else(|| "mp".into());
+  let _ = set_i32(&rcv, o::RCVTIMEO, 100).await;
+  // optional interference: other peers keep attaching to and detaching from the RECEIVER meanwhile
+  let noise_stop = std::sync::Arc::new(std::sync::atomic::AtomicBool::new(false));
+  let noise = if opts.get("noise").map(|v| v == "1").unwrap_or(false) {
+    let ctx2 = ctx.clone();
+    let target2 = target.clone();
+    let sty2 = scfg.get("type").cloned().unwrap_or_default();
+    let stop = noise_stop.clone();
+    let sender_binds2 = sender_binds;
+    Some(tokio::spawn(async move {
+      if sender_binds2 {
+        return; // the receiver is the connecting side: nobody else can reach it
+      }
+      while !stop.load(std::sync::atomic::Ordering::Relaxed) {
+        if let Ok(n) = ctx2.socket(socket_type(&sty2)) {
+          let _ = n.connect(&target2).await;
+          tokio::time::sleep(Duration::from_millis(8)).await;
+          let _ = tokio::time::timeout(Duration::from_secs(2), n.close()).await;
+        }
+        tokio::time::sleep(Duration::from_millis(3)).await;
+      }
+    }))
+  } else {
+    None
+  };
   let mut got: Vec<String> = Vec::new();
   let t0 = Instant::now();
   let mut sender = sender;
   let mut send_result: Option<(Vec<usize>, Option<String>)> = None;
   let mut idle_since: Option<Instant> = None;
+  let mut partial: Vec<Msg> = Vec::new();
+  let mut lcg: u64 = 0x9E3779B97F4A7C15;
   loop {
     if got.len() >= total + 4 || t0.elapsed() > Duration::from_secs(45) {
       break;
@@ -980,7 +1029,7 @@ async fn stream_inner(opts: HashMap<String, String>, scfg: HashMap<String, Strin
       send_result = (&mut sender).await.ok();
     }
     if let Some((acc, _)) = send_result.as_ref() {
-      if got.len() >= acc.len() {
+      if got.len() >= acc.len() && partial.is_empty() {
         // everything accepted has arrived: linger a little for duplicates
         match idle_since {
           None => idle_since = Some(Instant::now()),
@@ -989,8 +1038,33 @@ async fn stream_inner(opts: HashMap<String, String>, scfg: HashMap<String, Strin
         }
       }
     }
-    match tokio::time::timeout(Duration::from_millis(100), rcv.recv_multipart()).await {
-      Ok(Ok(mut frames)) => {
+    // one receive call in the chosen style; a message is complete at the first frame without MORE
+    lcg = lcg.wrapping_mul(6364136223846793005).wrapping_add(1442695040888963407);
+    let by_frame = match style.as_str() {
+      "fr" => true,
+      "mix" => (lcg >> 33) % 2 == 0,
+      _ => false,
+    };
+    let res: Result<Option<Vec<Msg>>, ZmqError> = if by_frame {
+      match rcv.recv().await {
+        Ok(f) => {
+          let more = f.is_more();
+          partial.push(f);
+          if more { Ok(None) } else { Ok(Some(std::mem::take(&mut partial))) }
+        }
+        Err(e) => Err(e),
+      }
+    } else {
+      match rcv.recv_multipart().await {
+        Ok(frames) => {
+          partial.extend(frames);
+          if partial.last().map(|f| f.is_more()).unwrap_or(false) { Ok(None) } else { Ok(Some(std::mem::take(&mut partial))) }
+        }
+        Err(e) => Err(e),
+      }
+    };
+    match res {
+      Ok(Some(mut frames)) => {
         if strip && !frames.is_empty() {
           frames.remove(0);
         }
@@ -1000,8 +1074,11 @@ async fn stream_inner(opts: HashMap<String, String>, scfg: HashMap<String, Strin
           tokio::time::sleep(pace).await;
         }
       }
-      Ok(Err(ZmqError::Timeout)) | Err(_) => {
-        if let Some((_, _)) = send_result.as_ref() {
+      Ok(None) => {
+        idle_since = None;
+      }
+      Err(ZmqError::Timeout) | Err(ZmqError::ResourceLimitReached) => {
+        if send_result.is_some() {
           match idle_since {
             None => idle_since = Some(Instant::now()),
             Some(t) if t.elapsed() > Duration::from_millis(2500) => break,
@@ -1009,11 +1086,18 @@ async fn stream_inner(opts: HashMap<String, String>, scfg: HashMap<String, Strin
           }
         }
       }
-      Ok(Err(e)) => {
+      Err(e) => {
         got.push(format!("E({})", err_class(&e)));
         break;
       }
     }
+  }
+  noise_stop.store(true, std::sync::atomic::Ordering::Relaxed);
+  if let Some(n) = noise {
+    let _ = tokio::time::timeout(Duration::from_secs(3), n).await;
+  }
+  if !partial.is_empty() {
+    got.push(format!("PARTIAL({})", show_frames(partial.iter())));
   }
   if send_result.is_none() {
     sender.abort();
@@ -1052,4 +1136,378 @@ async fn stream_inner(opts: HashMap<String, String>, scfg: HashMap<String, Strin
   }
   let joined = got.join(" ");
   format!("delivered={}:{:016x}", got.len(), fnv64(joined.as_bytes()))
+}
+
+
+/// `fsmscript <REQ|REP> <e1,e2,...>`
+/// A scripted call history on one REQ or REP socket (own current-thread runtime, every step followed by a
+/// settle pause), reporting each call's outcome; the model (`ReqSys` / `RepSys`) predicts the same log.
+/// REP events: `r<t>` task t starts recv(); `s` send a reply; `q<p>` peer p (1|2) sends a request; `x<t>` the
+/// recv of task t is dropped. REQ events: `s` send a request; `r<t>` / `m<t>` task t starts recv() /
+/// recv_multipart(); `p` the peer answers the oldest unanswered request; `x<t>` drop task t's receive.
+/// Log entries: `s=ok|invalid|...`, `s=ok>P<p>` (REP: who got the reply), `got:<body>` / `invalid` / `dropped`
+/// for receives (completion order within one step is canonicalised by sorting).
+async fn fsmscript(p: &[&str]) -> String {
+  let kind = p[1].to_string();
+  let script: Vec<String> = p[2].split(',').map(|x| x.to_string()).collect();
+  let (tx, rx) = tokio::sync::oneshot::channel();
+  std::thread::spawn(move || {
+    let rt = tokio::runtime::Builder::new_current_thread().enable_all().build().unwrap();
+    let r = rt.block_on(async move {
+      match tokio::time::timeout(Duration::from_secs(40), fsmscript_inner(kind, script)).await {
+        Ok(r) => r,
+        Err(_) => "ORACLE-FAIL key=fsmscript-hang".to_string(),
+      }
+    });
+    let _ = tx.send(r);
+    rt.shutdown_background();
+  });
+  rx.await.unwrap_or_else(|_| "PANIC".to_string())
+}
+
+fn class_of(e: &ZmqError) -> String {
+  match e {
+    ZmqError::InvalidState(_) => "invalid".into(),
+    other => err_class(other).to_lowercase(),
+  }
+}
+
+async fn fsmscript_inner(kind: String, script: Vec<String>) -> String {
+  use std::collections::BTreeMap;
+  let ctx = Context::new().expect("ctx");
+  let is_rep = kind == "REP";
+  let sock = ctx.socket(if is_rep { SocketType::Rep } else { SocketType::Req }).unwrap();
+  let _ = set_i32(&sock, o::SNDTIMEO, 300).await;
+  let mut log: Vec<String> = Vec::new();
+  let mut tasks: BTreeMap<String, tokio::task::JoinHandle<Result<Vec<u8>, ZmqError>>> = BTreeMap::new();
+  let settle = Duration::from_millis(25);
+  // peers
+  let mut peers: Vec<Socket> = Vec::new();
+  if is_rep {
+    if sock.bind("tcp://127.0.0.1:0").await.is_err() {
+      return "setup-error bind".into();
+    }
+    let ep = last_endpoint(&sock).await;
+    for _ in 0..2 {
+      let d = ctx.socket(SocketType::Dealer).unwrap();
+      let _ = set_i32(&d, o::RCVTIMEO, 60).await;
+      let _ = set_i32(&d, o::SNDTIMEO, 300).await;
+      if d.connect(&ep).await.is_err() {
+        return "setup-error connect".into();
+      }
+      peers.push(d);
+    }
+  } else {
+    let r = ctx.socket(SocketType::Router).unwrap();
+    let _ = set_i32(&r, o::RCVTIMEO, 300).await;
+    if r.bind("tcp://127.0.0.1:0").await.is_err() {
+      return "setup-error bind".into();
+    }
+    let ep = last_endpoint(&r).await;
+    if sock.connect(&ep).await.is_err() {
+      return "setup-error connect".into();
+    }
+    peers.push(r);
+  }
+  tokio::time::sleep(Duration::from_millis(200)).await;
+  let mut req_no = [0u32; 3];
+  let mut sent_no = 0u32;
+  let mut answered = 0u32;
+  async fn harvest(tasks: &mut std::collections::BTreeMap<String, tokio::task::JoinHandle<Result<Vec<u8>, ZmqError>>>, log: &mut Vec<String>) {
+    let done: Vec<String> = tasks.iter().filter(|(_, h)| h.is_finished()).map(|(k, _)| k.clone()).collect();
+    let mut outs = Vec::new();
+    for k in done {
+      if let Some(h) = tasks.remove(&k) {
+        outs.push(match h.await {
+          Ok(Ok(body)) => format!("got:{}", String::from_utf8_lossy(&body)),
+          Ok(Err(e)) => class_of(&e),
+          Err(_) => "dropped".to_string(),
+        });
+      }
+    }
+    outs.sort();
+    log.extend(outs);
+  }
+  for ev in &script {
+    let (op, arg) = ev.split_at(1);
+    match (is_rep, op) {
+      (_, "r") | (false, "m") => {
+        let s2 = sock.clone();
+        let multipart = op == "m";
+        tasks.insert(
+          arg.to_string(),
+          tokio::spawn(async move {
+            if multipart {
+              s2.recv_multipart().await.map(|f| f.last().map(|m| m.data().unwrap_or(&[]).to_vec()).unwrap_or_default())
+            } else {
+              s2.recv().await.map(|m| m.data().unwrap_or(&[]).to_vec())
+            }
+          }),
+        );
+      }
+      (_, "x") => {
+        if let Some(h) = tasks.remove(arg) {
+          h.abort();
+          let _ = h.await;
+          log.push("dropped".into());
+        }
+      }
+      (true, "q") => {
+        let pi: usize = arg.parse().unwrap_or(1);
+        req_no[pi] += 1;
+        let body = format!("p{}-{}", pi, req_no[pi]).into_bytes();
+        let _ = peers[pi - 1].send_multipart(vec![Msg::from_vec(body)]).await;
+      }
+      (true, "s") => {
+        match sock.send(Msg::from_static(b"reply")).await {
+          Ok(()) => {
+            let mut who = String::new();
+            for (i, d) in peers.iter().enumerate() {
+              if let Ok(f) = d.recv_multipart().await {
+                if !f.is_empty() {
+                  who.push_str(&format!("P{}", i + 1));
+                }
+              }
+            }
+            log.push(format!("s=ok>{}", if who.is_empty() { "nobody" } else { &who }));
+          }
+          Err(e) => log.push(format!("s={}", class_of(&e))),
+        }
+      }
+      (false, "s") => {
+        sent_no += 1;
+        match sock.send(Msg::from_vec(format!("m{}", sent_no).into_bytes())).await {
+          Ok(()) => log.push("s=ok".into()),
+          Err(e) => {
+            sent_no -= 1;
+            log.push(format!("s={}", class_of(&e)))
+          }
+        }
+      }
+      (false, "p") => {
+        // the peer answers the oldest unanswered request (if any reached it)
+        match peers[0].recv_multipart().await {
+          Ok(frames) if !frames.is_empty() => {
+            answered += 1;
+            let id = frames[0].clone();
+            let mut idf = Msg::from_vec(id.data().unwrap_or(&[]).to_vec());
+            idf.set_flags(rzmq::MsgFlags::MORE);
+            let _ = peers[0].send_multipart(vec![idf, Msg::from_vec(format!("a{}", answered).into_bytes())]).await;
+          }
+          _ => log.push("p=none".into()),
+        }
+      }
+      _ => {}
+    }
+    tokio::time::sleep(settle).await;
+    harvest(&mut tasks, &mut log).await;
+  }
+  for (_, h) in tasks.iter() {
+    h.abort();
+  }
+  let pending = tasks.len();
+  let _ = tokio::time::timeout(Duration::from_secs(5), sock.close()).await;
+  for d in &peers {
+    let _ = tokio::time::timeout(Duration::from_secs(5), d.close()).await;
+  }
+  let _ = tokio::time::timeout(Duration::from_secs(5), ctx.term()).await;
+  format!("log=[{}] waiting={}", log.join(" "), pending)
+}
+
+
+/// `partialread <tcp|ipc|inproc> <sender type> <receiver type> <event>`
+/// The receiver has read the first frame of a 3-frame message with recv() when something else happens on the
+/// socket (`detach`: another connected peer closes; `attach`: a new peer connects; `none`). The remaining
+/// frames must still come out next, in order, with their MORE flags, followed by the next message.
+async fn partialread(p: &[&str]) -> String {
+  let transport = p[1];
+  let sty = p[2];
+  let rty = p[3];
+  let event = p[4];
+  let ctx = Context::new().expect("ctx");
+  let rcv = ctx.socket(socket_type(rty)).unwrap();
+  let _ = set_i32(&rcv, o::RCVTIMEO, 1500).await;
+  let ep = match transport {
+    "tcp" => "tcp://127.0.0.1:0".to_string(),
+    "ipc" => format!("ipc:///tmp/{}.sock", unique_name("rzmq-verif-pr")),
+    _ => format!("inproc://{}", unique_name("partialread")),
+  };
+  if rcv.bind(&ep).await.is_err() {
+    return "setup-error bind".into();
+  }
+  let target = if transport == "tcp" { last_endpoint(&rcv).await } else { ep.clone() };
+  let a = ctx.socket(socket_type(sty)).unwrap();
+  let b = ctx.socket(socket_type(sty)).unwrap();
+  let _ = set_i32(&a, o::SNDTIMEO, 1500).await;
+  if a.connect(&target).await.is_err() || b.connect(&target).await.is_err() {
+    return "setup-error connect".into();
+  }
+  tokio::time::sleep(Duration::from_millis(200)).await;
+  let mk = |s: &'static [u8], more: bool| {
+    let mut m = Msg::from_static(s);
+    if more {
+      m.set_flags(rzmq::MsgFlags::MORE);
+    }
+    m
+  };
+  let r1 = a.send_multipart(vec![mk(b"a1", true), mk(b"a2", true), mk(b"a3", false)]).await;
+  let r2 = a.send_multipart(vec![mk(b"b1", false)]).await;
+  if r1.is_err() || r2.is_err() {
+    return "setup-error send".into();
+  }
+  let strip = rty == "ROUTER";
+  let mut out: Vec<String> = Vec::new();
+  let mut skip_id = strip;
+  let mut read_one = |out: &mut Vec<String>, f: Result<Msg, ZmqError>, skip: &mut bool| match f {
+    Ok(m) => {
+      if *skip {
+        *skip = false;
+        return true;
+      }
+      out.push(format!("{}{}", String::from_utf8_lossy(m.data().unwrap_or(&[])), if m.is_more() { "+" } else { "" }));
+      if !m.is_more() && strip {
+        *skip = true;
+      }
+      true
+    }
+    Err(e) => {
+      out.push(format!("E({})", err_class(&e)));
+      false
+    }
+  };
+  // first frame (for ROUTER: identity, then the first payload frame)
+  if strip {
+    let f = rcv.recv().await;
+    read_one(&mut out, f, &mut skip_id);
+  }
+  let f = rcv.recv().await;
+  read_one(&mut out, f, &mut skip_id);
+  let mut extra: Option<Socket> = None;
+  match event {
+    "detach" => {
+      let _ = tokio::time::timeout(Duration::from_secs(3), b.close()).await;
+      tokio::time::sleep(Duration::from_millis(250)).await;
+    }
+    "attach" => {
+      let c = ctx.socket(socket_type(sty)).unwrap();
+      let _ = c.connect(&target).await;
+      tokio::time::sleep(Duration::from_millis(250)).await;
+      extra = Some(c);
+    }
+    _ => {}
+  }
+  for _ in 0..(if strip { 4 } else { 3 }) {
+    let f = rcv.recv().await;
+    if !read_one(&mut out, f, &mut skip_id) {
+      break;
+    }
+  }
+  if let Some(c) = extra {
+    let _ = tokio::time::timeout(Duration::from_secs(3), c.close()).await;
+  }
+  let _ = tokio::time::timeout(Duration::from_secs(3), a.close()).await;
+  let _ = tokio::time::timeout(Duration::from_secs(3), b.close()).await;
+  let _ = tokio::time::timeout(Duration::from_secs(3), rcv.close()).await;
+  let _ = tokio::time::timeout(Duration::from_secs(5), ctx.term()).await;
+  if transport == "ipc" {
+    let _ = std::fs::remove_file(ep.trim_start_matches("ipc://"));
+  }
+  let got = out.join(" ");
+  if got == "a1+ a2+ a3 b1" {
+    "frames=[a1+ a2+ a3 b1]".into()
+  } else {
+    format!("ORACLE-FAIL key=partial-read frames=[{}] want=[a1+ a2+ a3 b1]", got)
+  }
+}
+
+/// `bigmulti <tcp|inproc> <sender cfg> <receiver cfg> <frames>`
+/// send_multipart() with `frames` one-byte frames. Either the sender refuses with an error, or the receiver
+/// gets exactly those frames (or its connection is closed); a panic or a truncated message is a violation.
+async fn bigmulti(p: &[&str]) -> String {
+  let transport = p[1];
+  let scfg = parse_kv(p[2]);
+  let rcfg = parse_kv(p[3]);
+  let rty = rcfg.get("type").cloned().unwrap_or_default();
+  let n: usize = p[4].parse().unwrap();
+  let ctx = Context::new().expect("ctx");
+  let rcv = match make_socket(&ctx, &rcfg).await {
+    Ok(s) => s,
+    Err(_) => return "setup-error receiver".into(),
+  };
+  let _ = set_i32(&rcv, o::RCVTIMEO, 700).await;
+  let ep = match transport {
+    "tcp" => "tcp://127.0.0.1:0".to_string(),
+    _ => format!("inproc://{}", unique_name("bigmulti")),
+  };
+  if rcv.bind(&ep).await.is_err() {
+    return "setup-error bind".into();
+  }
+  let target = if transport == "tcp" { last_endpoint(&rcv).await } else { ep.clone() };
+  let snd = match make_socket(&ctx, &scfg).await {
+    Ok(s) => s,
+    Err(_) => return "setup-error sender".into(),
+  };
+  let _ = set_i32(&snd, o::SNDTIMEO, 1500).await;
+  if snd.connect(&target).await.is_err() {
+    return "setup-error connect".into();
+  }
+  tokio::time::sleep(Duration::from_millis(200)).await;
+  let snd2 = snd.clone();
+  let h = tokio::spawn(async move {
+    let mut frames = Vec::new();
+    for i in 0..n {
+      let mut m = Msg::from_vec(vec![(i % 251) as u8]);
+      if i + 1 < n {
+        m.set_flags(rzmq::MsgFlags::MORE);
+      }
+      frames.push(m);
+    }
+    snd2.send_multipart(frames).await
+  });
+  let sent = match h.await {
+    Ok(Ok(())) => "ok".to_string(),
+    Ok(Err(e)) => format!("refused:{}", err_class(&e)),
+    Err(e) if e.is_panic() => "PANIC".to_string(),
+    Err(_) => "cancelled".to_string(),
+  };
+  let mut verdict = String::new();
+  if sent == "ok" {
+    match rcv.recv_multipart().await {
+      Ok(frames) => {
+        let k = if rty == "ROUTER" { frames.len().saturating_sub(1) } else { frames.len() };
+        if k == n {
+          verdict = "delivered=whole".into();
+        } else {
+          verdict = format!("delivered={}-of-{}", k, n);
+        }
+      }
+      Err(_) => verdict = "delivered=nothing".into(),
+    }
+  }
+  // the sender must still be usable after a refusal
+  let alive = if sent.starts_with("refused") || sent == "PANIC" {
+    match snd.send(Msg::from_static(b"after")).await {
+      Ok(()) => match rcv.recv_multipart().await {
+        Ok(_) => "alive",
+        Err(_) => "dead",
+      },
+      Err(_) => "dead",
+    }
+  } else {
+    "alive"
+  };
+  let _ = tokio::time::timeout(Duration::from_secs(3), snd.close()).await;
+  let _ = tokio::time::timeout(Duration::from_secs(3), rcv.close()).await;
+  let _ = tokio::time::timeout(Duration::from_secs(5), ctx.term()).await;
+  let line = format!("send={} {} sender={}", sent, verdict, alive);
+  if sent == "PANIC" || verdict.contains("-of-") || alive == "dead" {
+    format!("ORACLE-FAIL key=big-multipart {}", line)
+  } else if sent == "ok" && verdict == "delivered=whole" {
+    "outcome=delivered".into()
+  } else if sent.starts_with("refused") {
+    "outcome=refused".into()
+  } else {
+    // accepted by the sender, connection closed by the receiver: allowed by the property
+    "outcome=closed".into()
+  }
 }
